@@ -39,6 +39,9 @@ def check(ctx):
 
     check_initial_value(ctx, "C01-h", "C01-h", classes=("FlowProperties",))
     check_interp_options(ctx, "C01-i", ["bluebonnet.flow.flowproperties"], 5)
+    from .recovery import fvf_and_alpha
+
+    fvf_and_alpha(ctx, "C01-k")  # positive diffusivity ratio alpha(m)/alpha(m_i) for every concrete class (MRO, decorators)
     # C01-j: "up to rounding-level error of the linear solve": the solve is direct, or iterative with a checked flag and
     # a tight relative tolerance (shared with C04-e)
     from .c04 import check_solver_sites
@@ -157,7 +160,12 @@ def _step(ctx, cls):
 
 
 def check_boundary_row(ctx, rule):
-    it, f, parts = _step(ctx, "SinglePhaseReservoir")
+    for rcls in ("SinglePhaseReservoir", "TwoPhaseReservoir"):  # each concrete real-fluid class, through its own MRO
+        _check_boundary_row(ctx, rule, rcls)
+
+
+def _check_boundary_row(ctx, rule, rcls):
+    it, f, parts = _step(ctx, rcls)
     seen = set()
     for p, ev, A, b in parts:
         rows = rows_of(A, b.length)
@@ -183,13 +191,13 @@ def check_boundary_row(ctx, rule):
                 break
         if hit is not None:
             ctx.ok(
-                rule, RES + "SinglePhaseReservoir.simulate:frac-face row", where,
+                rule, RES + rcls + ".simulate:frac-face row", where,
                 "b[0] == m_f * (row sum of the frac-face row): the constant profile at the frac-face value is a fixed point of the boundary row for every step size (one diffusivity on both sides)",
                 m_f=nf.show(nf.atom_poly(hit), 160), b0=nf.show(b0, 300), row_sum=nf.show(total, 300),
             )
         else:
             ctx.bad(
-                rule, RES + "SinglePhaseReservoir.simulate:frac-face row", where,
+                rule, RES + rcls + ".simulate:frac-face row", where,
                 "b[0] == m_f * (row sum of the frac-face row): the constant profile at the frac-face value is a fixed point of the boundary row for every step size (one diffusivity on both sides)",
                 signature="boundary row inconsistent", b0=nf.show(b0, 400), row_sum=nf.show(total, 400),
             )
